@@ -13,7 +13,7 @@ PID = "C03"
 
 def inj_part(ck, tier, rng):
     icases, _ = c07.s_part(ck, tier, rng)
-    iterms = [slevel.render_sim_case(c["cfg"], c["devs"], (1, 1), 0, [], 1_300_000_003, c["run"]) for c in icases]
+    iterms = [slevel.render_sim_case(c["cfg"], c["devs"], (1, 1), c.get("initial", 0), [], 1_300_000_003, c["run"]) for c in icases]
     ibad = run_shards(PID + "_i", sprops.HEADER, "sim_case", "oracle_c03", iterms, shard_size=60)
     ck.coverage.update(injection_sweep_runs=len(icases), injection_sweep_stale_or_lost=len(ibad))
     for i in sorted(ibad):
@@ -21,7 +21,7 @@ def inj_part(ck, tier, rng):
         ck.report(sprops.REASONS[81] + "-after-a-mid-tick-interrupt",
                   f"interrupt of device c{c['device']} injected at loop step {c['step']} ({c['name']}): a later update is handed a value "
                   "which is not the latest one its source reported",
-                  dict(kind="injection", cfg={str(k): v for k, v in c["cfg"].items()}, devs={str(k): v for k, v in c["devs"].items()},
+                  dict(kind="injection", initial=c.get("initial", 0), cfg={str(k): v for k, v in c["cfg"].items()}, devs={str(k): v for k, v in c["devs"].items()},
                        device=c["device"], step=c["step"], inj=c["inj"], codes=ibad[i],
                        updates=[(cc, t, sorted(i2.items())) for (cc, t, i2) in c["run"]["trace"]][-14:]))
         break
@@ -38,8 +38,8 @@ def replay(rp):
     if rp.get("kind") == "injection":
         cfg = {int(k): dict(order=[(c, kk) for c, kk in v["order"]], conns=[tuple(x) for x in v["conns"]]) for k, v in rp["cfg"].items()}
         devs = {int(k): tuple(v) for k, v in rp["devs"].items()}
-        r = slevel.run_internal(cfg, devs, (1, 1), 0, [], 1_300_000_003, inject=(rp["step"], rp["device"]))
-        bad = run_shards("replay", sprops.HEADER, "sim_case", "oracle_c03", [slevel.render_sim_case(cfg, devs, (1, 1), 0, [], 1_300_000_003, r)])
+        r = slevel.run_internal(cfg, devs, (1, 1), rp.get("initial", 0), [], 1_300_000_003, inject=(rp["step"], rp["device"]))
+        bad = run_shards("replay", sprops.HEADER, "sim_case", "oracle_c03", [slevel.render_sim_case(cfg, devs, (1, 1), rp.get("initial", 0), [], 1_300_000_003, r)])
         print("interrupt of device", rp["device"], "injected at loop step", rp["step"])
         print("updates (device, time, inputs):", [(c, t, sorted(i.items())) for (c, t, i) in r["trace"]][-14:])
         print("codes:", bad.get(0, []))
